@@ -21,7 +21,9 @@ pub const SITE_BEFORE_WAIT: u32 = 13;
 pub const SITE_AFTER_SIGNAL: u32 = 14;
 pub const SITE_REINDEX_RECORD: u32 = 15;
 pub const SITE_COMMIT_QUEUED: u32 = 16;
-pub const NUM_SITES: u32 = 17;
+/// Reader side: a point read found an index entry and is about to fetch the value it names.
+pub const SITE_GET_VALUE_LOOKUP: u32 = 17;
+pub const NUM_SITES: u32 = 18;
 
 static HOOK: AtomicUsize = AtomicUsize::new(0);
 
